@@ -206,7 +206,7 @@ func ciRandom(rng *rand.Rand) ciScen {
 		sc := ciScen{Kind: "lancero", Origin: "seeded", FirstRow: []int{-1, 0, 1, 5, 100}[rng.Intn(5)],
 			SepCards: []int{-1, 0, 1, 4, 6, 9, 10, 12, 100, 1000}[rng.Intn(10)], SepCols: []int{-1, 0, 1, 2, 3, 4, 10, 32}[rng.Intn(8)]}
 		devs := rng.Perm(4)[:1+rng.Intn(3)]
-		for i := 0; i < len(devs); i++ {
+		for i := 0; i < len(devs) && rng.Intn(2) == 0; i++ { // half of the time in ascending order, otherwise as drawn (ActiveCards order is the client's)
 			for j := i + 1; j < len(devs); j++ {
 				if devs[j] < devs[i] {
 					devs[i], devs[j] = devs[j], devs[i]
